@@ -8,6 +8,7 @@
 package c12
 
 import (
+	"encoding/json"
 	"fmt"
 	"math"
 	"os"
@@ -1122,6 +1123,13 @@ func runProperty(t *testing.T, plugin string, maxOps int) {
 		defer loglevel.Set(level)()
 		r.Case()
 		cases++
+		// should the process die while this history runs (a Go runtime fault such as concurrent map writes inside
+		// a plugin), the driver finds the history here
+		if jp := os.Getenv("VERIF_JOURNAL"); jp != "" {
+			jb, _ := json.Marshal(map[string]any{"note": "the worker died while running this history", "case": c})
+			_ = os.WriteFile(jp, jb, 0o644)
+			defer os.Remove(jp)
+		}
 		o := newOracle(c)
 		viol, err := execute(c, o)
 		if err != nil {
